@@ -108,6 +108,16 @@ pub fn adc(bytes: &[u8]) -> Diff {
             if &f != r {
                 return bad("adc-field", format!("accessors {f:?} != reference {r:?}"));
             }
+            {
+                // accessors are pure: a second pass (in reverse order of fields: the struct is built again) agrees
+                let mut g = adc_fields_of(p);
+                g.unused = r.unused;
+                let mut h = adc_fields_of(&p.clone());
+                h.unused = r.unused;
+                if g != f || h != f {
+                    return bad("accessor-depends-on-history", format!("a second pass over the accessors of the same ADC packet differs: {}", hex(bytes)));
+                }
+            }
             let re = adc::reencode(&f);
             if re != bytes {
                 return bad("adc-roundtrip", format!("re-encoding differs: {} vs input {}", hex(&re), hex(bytes)));
@@ -173,6 +183,9 @@ pub fn chunk(bytes: &[u8]) -> Diff {
             let f = chunk_fields_of(c);
             if &f != r {
                 return bad("chunk-field", format!("accessors {f:?} != reference {r:?}"));
+            }
+            if chunk_fields_of(c) != f || chunk_fields_of(&c.clone()) != f {
+                return bad("accessor-depends-on-history", format!("a second pass over the accessors of the same chunk (or of its clone) differs: {}", hex(bytes)));
             }
             let re = chunk::reencode(&f);
             if re != bytes {
@@ -266,6 +279,19 @@ pub fn pwb(bytes: &[u8]) -> Diff {
             if &f != r {
                 return bad("pwb-field", format!("accessors {f:?} != reference {r:?}"));
             }
+            // accessors are pure: a second pass over the same packet object, and the
+            // channels asked in descending and in scattered order, give the same answers
+            if pwb_fields_of(p).as_ref() != Ok(&f) {
+                return bad("accessor-depends-on-history", format!("a second pass over the accessors of the same packet differs: {}", hex(bytes)));
+            }
+            let expect = |idx: u16| r.sent.iter().position(|&c| c == idx).map(|k| r.waveforms[k].as_slice());
+            let descending = (1..=79u16).rev();
+            let scattered = (0..79u16).map(|k| 1 + (k * 37 + 11) % 79);
+            for idx in descending.chain(scattered) {
+                if p.waveform_at(lib_channel(idx).unwrap()) != expect(idx) {
+                    return bad("accessor-depends-on-history", format!("waveform_at(readout index {idx}) asked out of ascending order differs from the block of that channel: {}", hex(bytes)));
+                }
+            }
             let re = pwb::reencode(&f);
             if re != bytes {
                 return bad("pwb-roundtrip", format!("re-encoding differs: {} vs input {}", hex(&re), hex(bytes)));
@@ -354,6 +380,9 @@ pub fn trg(bytes: &[u8]) -> Diff {
             }
             if !(f.output <= f.scaledown && f.scaledown <= f.drift && f.drift <= f.input) {
                 return bad("trg-order", format!("accepted counters not ordered: {f:?}"));
+            }
+            if trg_fields_of(p) != f || trg_fields_of(&p.clone()) != f {
+                return bad("accessor-depends-on-history", format!("a second pass over the accessors of the same TRG packet (or of its clone) differs: {}", hex(bytes)));
             }
             let re = trg::reencode(&f);
             if re != bytes {
